@@ -143,6 +143,9 @@ def fresh(name, sort):
     return Const('%s!%d' % (name, next(_counter)), sort)
 
 
+FACT_SINK = [None]
+
+
 class St:
     """symbolic state of one path"""
     __slots__ = ('env', 'heap', 'pc', 'facts', 'ghost', 'quants', 'interest', 'trace')
@@ -175,8 +178,11 @@ class St:
         self.pc.append(z)
 
     def fact(self, z):
+        # while a quantified assumption is being instantiated, the specification is evaluated in the state where it was
+        # assumed (its field values), but definitional facts produced on the way belong to the path being extended
+        tgt = FACT_SINK[0] if FACT_SINK[0] is not None else self
         if not is_true(z):
-            self.facts.append(z)
+            tgt.facts.append(z)
 
     def hyps(self):
         return self.pc + self.facts
